@@ -12,14 +12,31 @@ HERE = os.path.dirname(os.path.abspath(__file__))
 PYTHON = os.environ.get("VERIF_PYTHON", "/venv/bin/python")
 
 
+# The hosting environment of a worker interpreter, beyond its hash seed: time zone and
+# whether asserts are compiled away (python -O). Twin runs differ in all three.
+DEFAULT_PROFILE = {"tz": "UTC0", "opt": False}
+TWIN_PROFILE = {"tz": "JST-9", "opt": True}
+
+
+def env_of(hashseed, profile=None):
+    p = dict(DEFAULT_PROFILE, **(profile or {}))
+    return {"hashseed": hashseed, "tz": p["tz"], "opt": p["opt"]}
+
+
+def group_for_env(env):
+    """Pool group spec for exactly one worker running in `env`."""
+    return (1, env["hashseed"], {"tz": env.get("tz", "UTC0"), "opt": bool(env.get("opt"))})
+
+
 class WorkerDied(Exception):
     pass
 
 
 class _Worker(threading.Thread):
-    def __init__(self, pool, group, idx, hashseed):
+    def __init__(self, pool, group, idx, hashseed, profile=None):
         super().__init__(daemon=True)
         self.pool, self.group, self.idx, self.hashseed = pool, group, idx, hashseed
+        self.profile = dict(DEFAULT_PROFILE, **(profile or {}))
         self.proc = None
         self.hello = None
         self.busy_since = None
@@ -28,6 +45,7 @@ class _Worker(threading.Thread):
         env = dict(os.environ)
         env.update(
             PYTHONHASHSEED=str(self.hashseed),
+            TZ=self.profile["tz"],
             OPENBLAS_NUM_THREADS="1",
             OMP_NUM_THREADS="1",
             MKL_NUM_THREADS="1",
@@ -35,8 +53,8 @@ class _Worker(threading.Thread):
         )
         env.pop("PYTHONPATH", None)
         self.proc = subprocess.Popen(
-            [PYTHON, "-u", "-X", "faulthandler",
-             os.path.join(HERE, os.environ.get("VERIF_WORKER_SCRIPT", "worker.py")), self.pool.repo],
+            [PYTHON, "-u", "-X", "faulthandler"] + (["-O"] if self.profile["opt"] else [])
+            + [os.path.join(HERE, os.environ.get("VERIF_WORKER_SCRIPT", "worker.py")), self.pool.repo],
             stdin=subprocess.PIPE,
             stdout=subprocess.PIPE,
             env=env,
@@ -101,15 +119,17 @@ class _Worker(threading.Thread):
 
 class Pool:
     def __init__(self, repo, groups):
-        """groups: {"A": (n_workers, hashseed_base), ...}"""
+        """groups: {"A": (n_workers, hashseed_base[, profile]), ...}"""
         self.repo = repo
         self.queues = {g: queue.Queue() for g in groups}
         self.workers = []
         self.startup_errors = []
         self.ready = threading.Semaphore(0)
-        for g, (n, base) in sorted(groups.items()):
+        for g, spec in sorted(groups.items()):
+            n, base = spec[0], spec[1]
+            profile = spec[2] if len(spec) > 2 else None
             for i in range(n):
-                w = _Worker(self, g, i, base + i)
+                w = _Worker(self, g, i, base + i, profile)
                 self.workers.append(w)
                 w.start()
         for _ in self.workers:
